@@ -1,7 +1,10 @@
 package main
 
-// C13, wait-list protocol on the real code: walks (compared with the LTS model)
-// and deterministic reproductions of the deadlocks the model proves reachable.
+// C13, wait-list protocol on the real code: walks (every step replayed on the
+// real subscribe / notifySubscribers / unsubscribe / updateBest / SetMasterHead
+// and compared with the LTS model), the real WaitMasterchainSeqno under the real
+// Run loop (compared with the model's verdict, latency checked by an oracle), and
+// regression oracles for the repaired defects (c13.repro).
 
 import (
 	"context"
@@ -11,6 +14,7 @@ import (
 	"time"
 
 	"github.com/tonkeeper/tongo/liteapi/pool"
+	"github.com/tonkeeper/tongo/liteclient"
 	"github.com/tonkeeper/tongo/ton"
 
 	"verifharness/sx"
@@ -35,10 +39,56 @@ func finished(d chan struct{}, wait time.Duration) bool {
 	}
 }
 
+// wconn wraps a real pool connection: heads, ids and SetMasterHead are the real
+// ones; IsOK and AverageRoundTrip (network facts) are set by the harness.
+type wconn struct {
+	inner pool.VerifConn
+	idx   int
+	alive atomic.Bool
+	rtt   atomic.Int64
+}
+
+func (w *wconn) ID() int                              { return w.inner.ID() }
+func (w *wconn) MasterHead() ton.BlockIDExt           { return w.inner.MasterHead() }
+func (w *wconn) SetMasterHead(h ton.BlockIDExt)       { w.inner.SetMasterHead(h) }
+func (w *wconn) IsOK() bool                           { return w.alive.Load() }
+func (w *wconn) Client() *liteclient.Client           { return nil }
+func (w *wconn) Run(ctx context.Context, detect bool) {}
+func (w *wconn) IsArchiveNode() bool                  { return false }
+func (w *wconn) AverageRoundTrip() time.Duration      { return time.Duration(w.rtt.Load()) }
+func (w *wconn) Status() pool.ConnStatus              { return pool.ConnStatus{} }
+
+var _ pool.VerifConn = &wconn{}
+
+// newWalkPool builds a pool of n real connection objects (no network) wrapped in
+// wconn; connection 0 is the best one, nobody is alive yet.
+func newWalkPool(strat int, n int) (*pool.ConnPool, []*pool.VerifRealConn, []*wconn) {
+	p := pool.New(stratNames[strat])
+	conns := make([]*pool.VerifRealConn, n)
+	for i := range conns {
+		conns[i] = p.VerifAddRealConn(i)
+	}
+	wraps := make([]*wconn, 0, n)
+	p.VerifWrapConns(func(c pool.VerifConn) pool.VerifConn {
+		w := &wconn{inner: c, idx: len(wraps)}
+		wraps = append(wraps, w)
+		return w
+	})
+	return p, conns, wraps
+}
+
+func bestSx(p *pool.ConnPool) sx.V {
+	b := p.VerifBest()
+	if b == nil {
+		return sx.A("none")
+	}
+	return sx.Nat(b.(*wconn).idx)
+}
+
 // ---- walks ----
 
 const (
-	walkBlockAfter = 100 * time.Millisecond // an operation that has not returned by then is 'blocked
+	walkBlockAfter = 250 * time.Millisecond // an operation that has not returned by then is 'blocked
 	walkSettle     = 25 * time.Millisecond  // time given to pending operations after each step
 )
 
@@ -57,17 +107,13 @@ type wwaiter struct {
 	tgt   uint32
 }
 
-// c13.walk: (nconns (tgt ...) (op ...)) on a real pool with real connection
-// objects (no network; connection 0 is the best one)
+// c13.walk: (strategy nconns (tgt ...) (op ...))
 func execC13Walk(in sx.V) sx.V {
-	nconns := in.List[0].I()
-	p := pool.New(pool.BestPingStrategy)
-	conns := make([]*pool.VerifRealConn, nconns)
-	for i := range conns {
-		conns[i] = p.VerifAddRealConn(i)
-	}
-	ws := make([]*wwaiter, len(in.List[1].List))
-	for i, t := range in.List[1].List {
+	strat := in.List[0].I()
+	nconns := in.List[1].I()
+	p, conns, wraps := newWalkPool(strat, nconns)
+	ws := make([]*wwaiter, len(in.List[2].List))
+	for i, t := range in.List[2].List {
 		ws[i] = &wwaiter{tgt: uint32(t.U64())}
 	}
 	var pending []*wpend
@@ -90,7 +136,7 @@ func execC13Walk(in sx.V) sx.V {
 		return sx.A("blocked")
 	}
 	var outs []sx.V
-	for i, o := range in.List[2].List {
+	for i, o := range in.List[3].List {
 		name := o.List[0].Atom
 		var r sx.V
 		switch name {
@@ -102,6 +148,13 @@ func execC13Walk(in sx.V) sx.V {
 			} else {
 				r = launch(i, ag, func() { conns[c].SetMasterHead(h) }, func() sx.V { return done })
 			}
+		case "conn":
+			c := o.List[1].I()
+			if c < len(wraps) {
+				wraps[c].alive.Store(o.List[2].Bool)
+				wraps[c].rtt.Store(o.List[3].Int.Int64())
+			}
+			r = done
 		case "notify":
 			if busy("run") {
 				r = sx.A("busy")
@@ -115,7 +168,7 @@ func execC13Walk(in sx.V) sx.V {
 			if busy("run") {
 				r = sx.A("busy")
 			} else {
-				r = launch(i, "run", func() { p.VerifUpdateBest() }, func() sx.V { return done })
+				r = launch(i, "run", func() { p.VerifUpdateBest() }, func() sx.V { return sx.L(sx.A("best"), bestSx(p)) })
 			}
 		case "sub":
 			w := ws[o.List[1].I()]
@@ -167,7 +220,11 @@ func execC13Walk(in sx.V) sx.V {
 			for k, w := range ws {
 				chs[k] = sx.B(w.ready.Load() && len(w.ch) == 1)
 			}
-			r = sx.L(sx.Nat(p.VerifUpdateBufferLen()), wlv, sx.L(chs...))
+			bv := sx.A("locked")
+			if wl >= 0 {
+				bv = bestSx(p)
+			}
+			r = sx.L(sx.Nat(p.VerifUpdateBufferLen()), wlv, sx.L(chs...), bv)
 		default:
 			r = sx.L(sx.A("model-shape-error"), sx.A("op"))
 		}
@@ -225,18 +282,41 @@ func execC13Walk(in sx.V) sx.V {
 func op0(name string) sx.V           { return sx.L(sx.A(name)) }
 func op1(name string, a int) sx.V    { return sx.L(sx.A(name), sx.Nat(a)) }
 func op2(name string, a, b int) sx.V { return sx.L(sx.A(name), sx.Nat(a), sx.Nat(b)) }
-func walkSx(nconns int, tgts []int, ops []sx.V) sx.V {
+func opConn(c int, alive bool, rtt int64) sx.V {
+	return sx.L(sx.A("conn"), sx.Nat(c), sx.B(alive), sx.Z(rtt))
+}
+func walkSx(strat, nconns int, tgts []int, ops []sx.V) sx.V {
 	ts := make([]sx.V, len(tgts))
 	for i, t := range tgts {
 		ts[i] = sx.Nat(t)
 	}
-	return sx.L(sx.Nat(nconns), sx.L(ts...), sx.L(ops...))
+	return sx.L(sx.Nat(strat), sx.Nat(nconns), sx.L(ts...), sx.L(ops...))
 }
 
-// genC13Walks: random walks that avoid the permanent-deadlock shapes (those
-// are known findings, reproduced separately and not compared); transient
-// blocking (full waiter channel drained later, full update buffer consumed
-// later) is part of the compared stream.
+func setheads(c, from, n int) []sx.V {
+	var out []sx.V
+	for i := 0; i < n; i++ {
+		out = append(out, op2("sethead", c, from+i))
+	}
+	return out
+}
+
+// the witnesses of the repaired deadlocks as walks (also in /verif/corpus/C13)
+func walkF14() sx.V {
+	return walkSx(0, 1, []int{10, 1}, []sx.V{op2("sethead", 0, 5), op0("notify"), op1("sub", 0), op2("sethead", 0, 6), op0("notify"),
+		op2("sethead", 0, 7), op0("notify"), op0("state"), op1("unsub", 0), op0("state"), op0("tick"), op1("sub", 1), op1("recv", 1), op1("recv", 0)})
+}
+func walkF14bUpdateBest() sx.V {
+	return walkSx(0, 1, []int{100}, append(append([]sx.V{}, setheads(0, 1, 11)...), op0("state"), op0("tick"), op0("state"),
+		op0("notify"), op0("state"), op0("tick")))
+}
+func walkF14bSubscribe() sx.V {
+	ops := []sx.V{op2("sethead", 0, 1)}
+	ops = append(ops, setheads(0, 2, 11)...)
+	ops = append(ops, op0("state"), op1("sub", 0), op0("state"), op0("notify"), op0("state"), op1("recv", 0), op1("unsub", 0), op0("state"))
+	return walkSx(0, 1, []int{100}, ops)
+}
+
 func genC13Walks(c *Ctx, f *c13Fails) {
 	r := c.R
 	// hand-written scenarios
@@ -244,28 +324,36 @@ func genC13Walks(c *Ctx, f *c13Fails) {
 		class string
 		in    sx.V
 	}{
-		{"walk|success", walkSx(1, []int{10}, []sx.V{op1("sub", 0), op0("state"), op2("sethead", 0, 12), op0("notify"), op0("state"),
+		{"walk|success", walkSx(0, 1, []int{10}, []sx.V{op1("sub", 0), op0("state"), op2("sethead", 0, 12), op0("notify"), op0("state"),
 			op1("recv", 0), op1("unsub", 0), op0("state")})},
-		{"walk|preloaded", walkSx(1, []int{3}, []sx.V{op2("sethead", 0, 5), op0("notify"), op1("sub", 0), op0("state"), op1("recv", 0), op1("unsub", 0), op0("state")})},
-		{"walk|stale-heads", walkSx(1, []int{10}, []sx.V{op1("sub", 0), op2("sethead", 0, 3), op0("notify"), op1("recv", 0), op2("sethead", 0, 2),
+		{"walk|preloaded", walkSx(0, 1, []int{3}, []sx.V{op2("sethead", 0, 5), op0("notify"), op1("sub", 0), op0("state"), op1("recv", 0), op1("unsub", 0), op0("state")})},
+		{"walk|stale-heads", walkSx(0, 1, []int{10}, []sx.V{op1("sub", 0), op2("sethead", 0, 3), op0("notify"), op1("recv", 0), op2("sethead", 0, 2),
 			op0("notify"), op2("sethead", 0, 9), op0("notify"), op1("recv", 0), op2("sethead", 0, 10), op0("notify"), op1("recv", 0), op1("unsub", 0), op0("state")})},
-		{"walk|other-conn-ignored", walkSx(2, []int{5}, []sx.V{op1("sub", 0), op2("sethead", 1, 50), op0("notify"), op0("state"), op1("recv", 0),
+		{"walk|other-conn-ignored", walkSx(0, 2, []int{5}, []sx.V{op1("sub", 0), op2("sethead", 1, 50), op0("notify"), op0("state"), op1("recv", 0),
 			op2("sethead", 0, 7), op0("notify"), op1("recv", 0), op1("unsub", 0)})},
-		{"walk|transient-full-channel", walkSx(1, []int{100}, []sx.V{op1("sub", 0), op2("sethead", 0, 1), op0("notify"), op2("sethead", 0, 2), op0("notify"),
+		{"walk|full-channel-replaced", walkSx(0, 1, []int{100}, []sx.V{op1("sub", 0), op2("sethead", 0, 1), op0("notify"), op2("sethead", 0, 2), op0("notify"),
 			op0("state"), op0("tick"), op1("recv", 0), op0("state"), op1("recv", 0), op0("tick"), op1("unsub", 0), op0("state")})},
-		{"walk|transient-full-buffer", walkSx(1, []int{100}, append(append([]sx.V{}, setheads(0, 1, 11)...), op0("state"), op0("notify"), op0("state"), op0("tick"), op1("sub", 0), op0("state")))},
-		{"walk|empty-notify-tick", walkSx(2, []int{1, 2}, []sx.V{op0("notify"), op0("tick"), op0("state"), op1("recv", 0), op1("unsub", 1)})},
-		{"walk|three-waiters", walkSx(1, []int{2, 4, 1}, []sx.V{op2("sethead", 0, 1), op0("notify"), op1("sub", 0), op1("sub", 1), op1("sub", 2), op0("state"),
+		{"walk|f14-notify-while-leaving", walkF14()},
+		{"walk|f14b-updatebest-full-buffer", walkF14bUpdateBest()},
+		{"walk|f14b-subscribe-full-buffer", walkF14bSubscribe()},
+		{"walk|empty-notify-tick", walkSx(0, 2, []int{1, 2}, []sx.V{op0("notify"), op0("tick"), op0("state"), op1("recv", 0), op1("unsub", 1)})},
+		{"walk|three-waiters", walkSx(0, 1, []int{2, 4, 1}, []sx.V{op2("sethead", 0, 1), op0("notify"), op1("sub", 0), op1("sub", 1), op1("sub", 2), op0("state"),
 			op2("sethead", 0, 3), op0("notify"), op1("recv", 0), op1("recv", 1), op1("recv", 2), op0("state"), op1("unsub", 0), op1("unsub", 2),
 			op2("sethead", 0, 4), op0("notify"), op1("recv", 1), op1("unsub", 1), op0("state")})},
+		// the best connection switches from 0 to 1 while a sufficient head of 0 is still in the
+		// channel; a lower head of 1 must not replace it
+		{"walk|switch-keeps-newer", walkSx(0, 2, []int{10}, []sx.V{opConn(0, true, 5), opConn(1, true, 9), op2("sethead", 0, 1), op2("sethead", 1, 1), op0("notify"), op0("notify"),
+			op1("sub", 0), op2("sethead", 0, 10), op0("notify"), op0("state"), op2("sethead", 1, 9), opConn(1, true, 1), op0("tick"), op0("state"), op0("notify"),
+			op1("recv", 0), op0("state"), op1("unsub", 0), op0("state")})},
+		{"walk|switch-lower-then-higher", walkSx(0, 2, []int{50}, []sx.V{opConn(0, true, 5), opConn(1, true, 1), op1("sub", 0), op2("sethead", 0, 7), op0("notify"),
+			op2("sethead", 1, 6), op0("tick"), op0("notify"), op0("state"), op1("recv", 0), op2("sethead", 1, 8), op0("notify"), op1("recv", 0), op0("state")})},
+		{"walk|first-working-switch", walkSx(1, 3, []int{4}, []sx.V{opConn(2, true, 1), opConn(1, true, 9), op0("tick"), op2("sethead", 2, 3), op0("tick"), op0("notify"),
+			op1("sub", 0), opConn(1, false, 9), op0("tick"), op2("sethead", 2, 4), op0("notify"), op1("recv", 0), op1("unsub", 0), op0("state")})},
+		{"walk|unknown-strategy", walkSx(2, 2, []int{1}, []sx.V{opConn(1, true, 1), op2("sethead", 1, 5), op0("tick"), op0("notify"), op0("state")})},
 	}
 	for _, s := range fixed {
 		c.Emit("c13.walk", s.in, s.class)
 	}
-	// a second subscriber queues behind Run, which is blocked on the first waiter's full channel
-	c.Emit("c13.walk", walkSx(1, []int{100, 100}, []sx.V{op1("sub", 0), op2("sethead", 0, 1), op0("notify"), op2("sethead", 0, 2), op0("notify"),
-		op0("state"), op0("tick"), op1("sub", 1), op0("state"), op1("recv", 0), op0("state"), op1("recv", 0), op1("recv", 1), op1("unsub", 0), op1("unsub", 1), op0("state")}),
-		"walk|writer-queued-behind-blocked-reader")
 	// bursts of head updates against the 10-slot buffer
 	for _, k := range []int{9, 10, 11} {
 		for _, j := range []int{1, 3} {
@@ -277,136 +365,291 @@ func genC13Walks(c *Ctx, f *c13Fails) {
 			}
 			ops = append(ops, op0("state"), op0("tick"), op1("sub", 1), op0("state"))
 			for x := 0; x < 12; x++ {
-				ops = append(ops, op0("notify"), op1("recv", 0), op1("recv", 1))
+				ops = append(ops, op0("notify"))
+				if x%3 == 0 {
+					ops = append(ops, op1("recv", 0), op1("recv", 1))
+				}
 			}
-			ops = append(ops, op1("unsub", 0), op1("unsub", 1), op0("state"))
-			c.Emit("c13.walk", walkSx(1, []int{100, 5}, ops), fmt.Sprintf("walk|burst|k%d", k))
+			ops = append(ops, op1("recv", 0), op1("recv", 1), op1("unsub", 0), op1("unsub", 1), op0("state"))
+			c.Emit("c13.walk", walkSx(0, 1, []int{100, 5}, ops), fmt.Sprintf("walk|burst|k%d", k))
 		}
 	}
-	// random walks
-	n := c.Scale(260, 3000)
+	// the best connection switches while an unconsumed head of the old one is in the channels
+	nsw := c.Scale(24, 400)
+	for i := 0; i < nsw; i++ {
+		strat := r.Intn(2)
+		a, b := 0, 1
+		if r.Chance(50) {
+			a, b = 1, 0
+		}
+		hA := 5 + r.Intn(10)
+		hB := hA - 1 + r.Intn(3) // one behind, equal, one ahead: both connections stay eligible
+		tgts := []int{hA - r.Intn(2), hB + r.Intn(2)}
+		ops := []sx.V{opConn(a, true, 1), opConn(b, true, 2), op0("tick"), op1("sub", 0), op1("sub", 1),
+			op2("sethead", a, hA), op0("notify"), op0("state")}
+		if r.Chance(30) {
+			ops = append(ops, op1("recv", r.Intn(2)))
+		}
+		// b becomes the choice: a dies (or gets slower under best-ping)
+		if strat == 0 && r.Chance(50) {
+			ops = append(ops, opConn(a, true, 3))
+		} else {
+			ops = append(ops, opConn(a, false, 1))
+		}
+		ops = append(ops, op2("sethead", b, hB), op0("tick"), op0("notify"), op0("state"),
+			op1("recv", 0), op1("recv", 1), op1("recv", 0), op1("unsub", 0), op1("unsub", 1), op0("state"))
+		c.Emit("c13.walk", walkSx(strat, 2, tgts, ops), fmt.Sprintf("walk|switch|s%d|d%d", strat, hB-hA+1))
+	}
+	// random walks: any interleaving of head updates, notifications, refreshes of the
+	// best connection, subscriptions, receives and unsubscriptions (also with full
+	// channels); at most one publisher is blocked on the full buffer at a time and
+	// only in the |mayblock walks (each blocked observation costs walkBlockAfter)
+	n := c.Scale(300, 4000)
 	for i := 0; i < n; i++ {
-		nconns := 1 + r.Intn(2)
+		nconns := 1 + r.Intn(3)
 		nw := 1 + r.Intn(3)
+		strat := r.Intn(2)
+		if r.Chance(5) {
+			strat = 2
+		}
 		tgts := make([]int, nw)
 		for k := range tgts {
 			tgts[k] = 1 + r.Intn(12)
 		}
-		single := nw == 1
-		// blocking is allowed in a fraction of the single-waiter walks only (each
-		// blocked observation costs walkBlockAfter)
-		mayBlock := single && i%6 == 0
+		mayBlock := i%12 == 0
 		var ops []sx.V
 		heads := make([]int, nconns)
 		unconsumed := 0 // publishes minus notifies (upper bound of the buffer fill)
-		undrained := 0  // notifies of the best connection since the waiter's last drain
-		subbed := make([]bool, nw)
-		gone := make([]bool, nw)
-		// a waiter that has received a sufficient head leaves its loop; it is
-		// unsubscribed right after the receive (channel empty), never later: a
-		// leaving waiter with a full channel is the F14 shape (known finding, not
-		// compared) and with several registered waiters the map order would show
-		recv := func(w int) {
-			ops = append(ops, op1("recv", w))
-			if subbed[w] && !gone[w] && heads[0] >= tgts[w] {
-				ops = append(ops, op1("recv", w), op1("unsub", w))
-				gone[w] = true
-			}
-		}
-		steps := 6 + r.Intn(14)
+		blocked := false
+		steps := 8 + r.Intn(18)
 		for s := 0; s < steps; s++ {
-			switch k := r.Intn(10); {
+			switch k := r.Intn(12); {
 			case k < 3: // a head arrives
 				cn := r.Intn(nconns)
 				if r.Chance(85) {
 					heads[cn] += 1 + r.Intn(3)
 				}
-				if unconsumed >= 10 && !mayBlock {
+				h := heads[cn]
+				if r.Chance(10) && h > 1 {
+					h -= 1 + r.Intn(h-1) // a stale head: ignored by SetMasterHead
+				}
+				if unconsumed >= 10 && !(mayBlock && !blocked) {
 					ops = append(ops, op0("notify"))
-					unconsumed--
+					if unconsumed > 0 {
+						unconsumed--
+					}
+					blocked = false
 				}
-				if unconsumed >= 11 {
-					continue
+				if unconsumed >= 10 {
+					blocked = true
 				}
-				ops = append(ops, op2("sethead", cn, heads[cn]))
+				ops = append(ops, op2("sethead", cn, h))
 				unconsumed++
 			case k < 6: // Run consumes one update
-				if single && undrained >= 1 && !mayBlock {
-					recv(0)
-					undrained = 0
-				}
-				if single && undrained >= 2 {
-					continue // Run would be busy
-				}
 				ops = append(ops, op0("notify"))
 				if unconsumed > 0 {
 					unconsumed--
 				}
-				undrained++
-				if !single {
-					for w := 0; w < nw; w++ {
-						recv(w)
-					}
-					undrained = 0
+				if unconsumed < 10 {
+					blocked = false
 				}
 			case k < 7:
-				if unconsumed < 11 {
+				ops = append(ops, op0("tick"))
+			case k < 8:
+				ops = append(ops, opConn(r.Intn(nconns), r.Chance(70), int64(1+r.Intn(3))))
+				if r.Chance(50) {
 					ops = append(ops, op0("tick"))
 				}
-			case k < 8:
-				w := r.Intn(nw)
-				if !subbed[w] && unconsumed < 11 {
-					subbed[w] = true
-					ops = append(ops, op1("sub", w))
-				}
 			case k < 9:
-				w := r.Intn(nw)
-				recv(w)
-				if single && undrained > 0 {
-					undrained--
-				}
+				ops = append(ops, op1("sub", r.Intn(nw)))
+			case k < 11:
+				ops = append(ops, op1("recv", r.Intn(nw)))
 			default:
-				w := r.Intn(nw)
-				if subbed[w] && !gone[w] {
-					// never leave with a possibly full channel (F14 shape)
-					ops = append(ops, op1("recv", w), op1("recv", w), op1("unsub", w))
-					gone[w] = true
-					if single {
-						undrained = 0
-					}
-				}
+				ops = append(ops, op1("unsub", r.Intn(nw)))
 			}
 			if r.Chance(25) {
 				ops = append(ops, op0("state"))
 			}
 		}
-		// drain everything that may be pending so that the walk ends quiescent
-		for k := 0; k < 3; k++ {
-			for w := 0; w < nw; w++ {
-				recv(w)
-			}
+		// drain so that the walk ends quiescent
+		for k := 0; k < 12 && unconsumed > 0; k++ {
 			ops = append(ops, op0("notify"))
+			unconsumed--
 		}
-		ops = append(ops, op0("state"))
-		class := fmt.Sprintf("walk|random|c%d|w%d", nconns, nw)
+		for w := 0; w < nw; w++ {
+			ops = append(ops, op1("recv", w), op1("unsub", w))
+		}
+		ops = append(ops, op0("notify"), op0("state"))
+		class := fmt.Sprintf("walk|random|s%d|c%d|w%d", strat, nconns, nw)
 		if mayBlock {
 			class += "|mayblock"
 		}
-		c.Emit("c13.walk", walkSx(nconns, tgts, ops), class)
+		c.Emit("c13.walk", walkSx(strat, nconns, tgts, ops), class)
 	}
 }
 
-func setheads(c, from, n int) []sx.V {
-	var out []sx.V
+// ---- the real WaitMasterchainSeqno under the real Run loop ----
+
+const (
+	waitLong      = 3 * time.Second       // timeout of a wait that must succeed
+	waitShort     = 50 * time.Millisecond // timeout of a wait that must fail
+	waitLateAfter = 1000 * time.Millisecond
+)
+
+// c13.wait: (tgt h0 ((conn head) ...) cancel?) -> 'nil | 'timeout | 'cancel
+// Two connections, 0 is the best one and starts at head h0.  The heads are
+// published one by one (each is given time to travel through Run to the waiter).
+// If one of them suffices the wait must return nil; otherwise lower heads of the
+// best connection keep arriving until the caller has returned (timeout after
+// waitShort, or cancellation).
+func execC13Wait(in sx.V) sx.V {
+	res, took := runWait(in)
+	lastWaitTook = took
+	return res
+}
+
+var lastWaitTook time.Duration
+
+func runWait(in sx.V) (sx.V, time.Duration) {
+	tgt := uint32(in.List[0].U64())
+	h0 := uint32(in.List[1].U64())
+	cancelIt := in.List[3].Bool
+	p, conns, _ := newWalkPool(0, 2)
+	ctx, stop := context.WithCancel(context.Background())
+	defer stop()
+	go p.Run(ctx)
+	if h0 > 0 {
+		conns[0].SetMasterHead(h0)
+	}
+	for k := 0; k < 200 && p.VerifUpdateBufferLen() > 0; k++ {
+		time.Sleep(time.Millisecond)
+	}
+	time.Sleep(2 * time.Millisecond)
+	sufficient := h0 >= tgt
+	cur := []uint32{h0, 0}
+	for _, ch := range in.List[2].List {
+		c, h := ch.List[0].I(), uint32(ch.List[1].U64())
+		if c == 0 && h >= tgt {
+			sufficient = true
+		}
+		_ = cur
+	}
+	timeout := waitShort
+	if sufficient || cancelIt {
+		timeout = waitLong
+	}
+	wctx, wcancel := context.WithCancel(context.Background())
+	defer wcancel()
+	var err error
+	start := time.Now()
+	var took time.Duration
+	d := goStep(func() {
+		err = p.WaitMasterchainSeqno(wctx, tgt, timeout)
+		took = time.Since(start)
+	})
+	time.Sleep(3 * time.Millisecond) // let it subscribe
+	for _, ch := range in.List[2].List {
+		c, h := ch.List[0].I(), uint32(ch.List[1].U64())
+		conns[c].SetMasterHead(h)
+		if h > cur[c] {
+			cur[c] = h
+		}
+		if finished(d, 3*time.Millisecond) {
+			break
+		}
+	}
+	if !sufficient {
+		if cancelIt {
+			wcancel()
+		}
+		// insufficient heads keep arriving (stale ones: the head of the connection
+		// does not change, but the caller's loop must not be kept alive by anything)
+		deadline := time.Now().Add(2500 * time.Millisecond)
+		for !finished(d, 10*time.Millisecond) && time.Now().Before(deadline) {
+			if cur[0]+1 < tgt {
+				cur[0]++
+				conns[0].SetMasterHead(cur[0])
+			}
+		}
+	}
+	if !finished(d, waitLong+time.Second) {
+		return sx.A("hang"), 0
+	}
+	switch {
+	case err == nil:
+		return sx.A("nil"), took
+	case err == context.Canceled:
+		return sx.A("cancel"), took
+	default:
+		return sx.A("timeout"), took
+	}
+}
+
+func waitSx(tgt, h0 int, heads [][2]int, cancel bool) sx.V {
+	hs := make([]sx.V, len(heads))
+	for i, h := range heads {
+		hs[i] = sx.L(sx.Nat(h[0]), sx.Nat(h[1]))
+	}
+	return sx.L(sx.Nat(tgt), sx.Nat(h0), sx.L(hs...), sx.B(cancel))
+}
+
+func genC13Waits(c *Ctx, f *c13Fails) {
+	r := c.R
+	emit := func(in sx.V, class string) {
+		res := c.Emit("c13.wait", in, class)
+		took := lastWaitTook
+		// latency oracle: success well before the timeout; failure after the timeout
+		// has elapsed and not much later (the timer must not restart at every head)
+		switch res.Atom {
+		case "nil":
+			if took > waitLong/2 {
+				f.fail("c13.wait", in, "wait-success-late", fmt.Sprintf("WaitMasterchainSeqno returned nil only after %v", took))
+			}
+		case "timeout":
+			if took < waitShort {
+				f.fail("c13.wait", in, "wait-timeout-early", fmt.Sprintf("WaitMasterchainSeqno(timeout %v) returned an error after %v", waitShort, took))
+			}
+			if took > waitShort+waitLateAfter {
+				f.fail("c13.wait", in, "wait-timeout-restarts", fmt.Sprintf("WaitMasterchainSeqno(timeout %v) with insufficient heads arriving every 10 ms returned only after %v", waitShort, took))
+			}
+		case "cancel":
+			if took > time.Second {
+				f.fail("c13.wait", in, "wait-cancel-late", fmt.Sprintf("WaitMasterchainSeqno returned %v after cancellation", took))
+			}
+		default:
+			f.fail("c13.wait", in, "wait-hang", "WaitMasterchainSeqno did not return")
+		}
+	}
+	emit(waitSx(5, 7, nil, false), "wait|already-there")
+	emit(waitSx(5, 5, nil, false), "wait|already-there-equal")
+	emit(waitSx(5, 2, [][2]int{{0, 3}, {0, 4}, {0, 5}}, false), "wait|arrives")
+	emit(waitSx(5, 2, [][2]int{{1, 9}, {0, 3}}, false), "wait|other-conn-only")
+	emit(waitSx(1000, 2, [][2]int{{0, 3}, {0, 4}}, false), "wait|never")
+	emit(waitSx(100, 2, [][2]int{{0, 3}}, true), "wait|cancelled")
+	emit(waitSx(1, 0, [][2]int{{0, 1}}, false), "wait|first-head")
+	n := c.Scale(24, 200)
 	for i := 0; i < n; i++ {
-		out = append(out, op2("sethead", c, from+i))
+		tgt := 2 + r.Intn(10)
+		h0 := r.Intn(tgt + 2)
+		var heads [][2]int
+		cur := []int{h0, 0}
+		k := r.Intn(6)
+		for j := 0; j < k; j++ {
+			cn := 0
+			if r.Chance(30) {
+				cn = 1
+			}
+			cur[cn] += r.Intn(4)
+			heads = append(heads, [2]int{cn, cur[cn]})
+		}
+		class := "wait|random"
+		emit(waitSx(tgt, h0, heads, r.Chance(20)), class)
 	}
-	return out
 }
 
-// ---- deterministic reproductions (oracle on the implementation) ----
+// ---- regression oracles for the repaired defects (each returns true when the defect shows) ----
 
-const reproBlockAfter = 300 * time.Millisecond
+const reproBlockAfter = 500 * time.Millisecond
 
 // F14: two notifications while a waiter leaves.
 func reproNotifyUnsubscribe() (bool, string) {
@@ -430,18 +673,17 @@ func reproNotifyUnsubscribe() (bool, string) {
 	// collateral: an unrelated caller with a 50 ms timeout does not return either
 	dW := goStep(func() { _ = p.WaitMasterchainSeqno(context.Background(), 1, 50*time.Millisecond) })
 	wBlocked := !finished(dW, reproBlockAfter)
-	// causality: draining the channel by hand releases everything
 	select {
 	case <-ch:
 	default:
 	}
 	released := finished(dN, time.Second) && finished(dU, time.Second) && finished(dW, time.Second)
-	return nBlocked && uBlocked, fmt.Sprintf("notifySubscribers blocked=%v (holds RLock, full waiter channel), unsubscribe blocked=%v, "+
+	return nBlocked || uBlocked || wBlocked, fmt.Sprintf("notifySubscribers blocked=%v (holds RLock, full waiter channel), unsubscribe blocked=%v, "+
 		"unrelated WaitMasterchainSeqno(timeout 50ms) blocked=%v after %v; released by draining the channel=%v",
 		nBlocked, uBlocked, wBlocked, reproBlockAfter, released)
 }
 
-// updateBest against SetMasterHead on a full update buffer.
+// F14b: updateBest against SetMasterHead on a full update buffer.
 func reproUpdateBestSetHead() (bool, string) {
 	p := pool.New(pool.BestPingStrategy)
 	rc := p.VerifAddRealConn(0)
@@ -449,17 +691,16 @@ func reproUpdateBestSetHead() (bool, string) {
 		rc.SetMasterHead(h) // buffer fills: Run has not been scheduled
 	}
 	d11 := goStep(func() { rc.SetMasterHead(11) })
-	sBlocked := !finished(d11, reproBlockAfter)
+	sBlocked := !finished(d11, reproBlockAfter) // expected: waits for buffer space, holding no lock
 	// Run's select takes the ticker branch (both branches are ready)
 	dT := goStep(func() { p.VerifUpdateBest() })
 	tBlocked := !finished(dT, reproBlockAfter)
-	// collateral
 	dB := goStep(func() { _, _, _ = p.BestMasterchainClient(context.Background()) })
 	bBlocked := !finished(dB, reproBlockAfter)
-	p.VerifTakeUpdate() // what only Run could do
+	p.VerifTakeUpdate() // what Run does next
 	released := finished(d11, time.Second) && finished(dT, time.Second) && finished(dB, time.Second)
-	return sBlocked && tBlocked, fmt.Sprintf("SetMasterHead blocked=%v (holds connection lock, buffer of 10 full), updateBest blocked=%v (holds pool lock, "+
-		"waits for connection lock), BestMasterchainClient blocked=%v after %v; released by consuming one update=%v",
+	return tBlocked || bBlocked || !released, fmt.Sprintf("SetMasterHead waiting for buffer space=%v, updateBest blocked=%v (holds pool lock, "+
+		"waits for connection lock), BestMasterchainClient blocked=%v after %v; all returned after one update was consumed=%v",
 		sBlocked, tBlocked, bBlocked, reproBlockAfter, released)
 }
 
@@ -484,7 +725,7 @@ func reproUpdateBestSetHeadRealRun() (bool, string) {
 			atomic.StoreUint32(&published, h)
 		}
 	}()
-	deadline := time.Now().Add(3 * time.Second)
+	deadline := time.Now().Add(1500 * time.Millisecond)
 	last, lastChange := uint32(0), time.Now()
 	stuck := false
 	for time.Now().Before(deadline) {
@@ -492,7 +733,7 @@ func reproUpdateBestSetHeadRealRun() (bool, string) {
 		cur := atomic.LoadUint32(&published)
 		if cur != last {
 			last, lastChange = cur, time.Now()
-		} else if time.Since(lastChange) > 400*time.Millisecond {
+		} else if time.Since(lastChange) > 700*time.Millisecond {
 			stuck = true
 			break
 		}
@@ -501,10 +742,10 @@ func reproUpdateBestSetHeadRealRun() (bool, string) {
 	if stuck {
 		p.VerifTakeUpdate()
 	}
-	return stuck, fmt.Sprintf("real Run loop with a 1 ms ticker and one connection publishing in a loop: no progress for 400 ms after %d heads = %v", last, stuck)
+	return stuck, fmt.Sprintf("real Run loop with a 1 ms ticker and one connection publishing in a loop: no progress for 700 ms after %d heads = %v", last, stuck)
 }
 
-// subscribe against SetMasterHead on a full update buffer while Run waits for RLock.
+// F14b: subscribe against SetMasterHead on a full update buffer while Run waits for RLock.
 func reproSubscribeSetHead() (bool, string) {
 	p := pool.New(pool.BestPingStrategy)
 	rc := p.VerifAddRealConn(0)
@@ -514,18 +755,18 @@ func reproSubscribeSetHead() (bool, string) {
 		rc.SetMasterHead(h)
 	}
 	d12 := goStep(func() { rc.SetMasterHead(12) })
-	pBlocked := !finished(d12, reproBlockAfter)
+	pBlocked := !finished(d12, reproBlockAfter) // expected: waits for buffer space, holding no lock
 	dS := goStep(func() { p.VerifSubscribe(100) })
 	sBlocked := !finished(dS, reproBlockAfter)
 	dN := goStep(func() { p.VerifNotify(u) })
 	nBlocked := !finished(dN, reproBlockAfter)
 	p.VerifTakeUpdate()
 	released := finished(d12, time.Second) && finished(dS, time.Second) && finished(dN, time.Second)
-	return pBlocked && sBlocked && nBlocked, fmt.Sprintf("SetMasterHead blocked=%v, subscribe blocked=%v (holds pool lock, waits for connection lock), "+
-		"notifySubscribers blocked=%v (waits for RLock) after %v; released by consuming one update=%v", pBlocked, sBlocked, nBlocked, reproBlockAfter, released)
+	return sBlocked || nBlocked || !released, fmt.Sprintf("SetMasterHead waiting for buffer space=%v, subscribe blocked=%v (holds pool lock, waits for connection lock), "+
+		"notifySubscribers blocked=%v (waits for RLock) after %v; all returned after one update was consumed=%v", pBlocked, sBlocked, nBlocked, reproBlockAfter, released)
 }
 
-// the timeout of WaitMasterchainSeqno restarts at every head update
+// F14c: the timeout of WaitMasterchainSeqno restarted at every head update
 func reproTimeoutRestarts() (bool, string) {
 	p := pool.New(pool.BestPingStrategy)
 	rc := p.VerifAddRealConn(0)
@@ -541,20 +782,24 @@ func reproTimeoutRestarts() (bool, string) {
 		ret = time.Since(start)
 	})
 	h := uint32(2)
-	lateAt3T := false
-	for time.Since(start) < 4*T {
+	lateAt6T := false
+	for time.Since(start) < 7*T {
 		time.Sleep(T / 3)
 		rc.SetMasterHead(h)
 		h++
-		if time.Since(start) >= 3*T && !lateAt3T {
-			lateAt3T = !finished(d, 0)
+		if time.Since(start) >= 6*T && !lateAt6T {
+			lateAt6T = !finished(d, 0)
+		}
+		if finished(d, 0) {
+			break
 		}
 	}
 	finished(d, 2*T)
-	return lateAt3T, fmt.Sprintf("WaitMasterchainSeqno(seqno far ahead, timeout %v) with a head update every %v: still waiting after %v = %v (returned after %v, i.e. one timeout after the last update)",
-		T, T/3, 3*T, lateAt3T, ret.Round(10*time.Millisecond))
+	return lateAt6T, fmt.Sprintf("WaitMasterchainSeqno(seqno far ahead, timeout %v) with a head update every %v: still waiting after %v = %v (returned after %v)",
+		T, T/3, 6*T, lateAt6T, ret.Round(10*time.Millisecond))
 }
 
+// observation (outside the property's quantifier: pools of 1..4 connections)
 func reproEmptyPoolPanic() (panicked bool, what string) {
 	defer func() {
 		if r := recover(); r != nil {
@@ -566,24 +811,41 @@ func reproEmptyPoolPanic() (panicked bool, what string) {
 	return false, ""
 }
 
+type c13Repro struct {
+	key string
+	f   func() (bool, string)
+}
+
+var c13Repros = []c13Repro{
+	{"notify-unsubscribe-deadlock", reproNotifyUnsubscribe},
+	{"updatebest-sethead-deadlock", reproUpdateBestSetHead},
+	{"updatebest-sethead-deadlock-real-run", reproUpdateBestSetHeadRealRun},
+	{"subscribe-sethead-deadlock", reproSubscribeSetHead},
+	{"wait-timeout-restarts", reproTimeoutRestarts},
+}
+
+// c13.repro: n -> 'ok | 'bad   (the model has no such behaviour: always 'ok)
+func execC13Repro(in sx.V) sx.V {
+	k := in.I()
+	lastReproWhat = ""
+	if k < 0 || k >= len(c13Repros) {
+		return sx.A("ok")
+	}
+	bad, what := c13Repros[k].f()
+	lastReproWhat = what
+	if bad {
+		return sx.A("bad")
+	}
+	return sx.A("ok")
+}
+
+var lastReproWhat string
+
 func genC13Repro(c *Ctx, f *c13Fails) {
-	none := sx.L()
-	if bad, what := reproNotifyUnsubscribe(); bad {
-		f.fail("c13.repro", none, "notify-unsubscribe-deadlock", "F14: "+what)
-	}
-	if bad, what := reproUpdateBestSetHead(); bad {
-		if bad2, what2 := reproUpdateBestSetHeadRealRun(); bad2 {
-			what += "; " + what2
+	for k, rp := range c13Repros {
+		res := c.Emit("c13.repro", sx.Nat(k), "repro|"+rp.key)
+		if res.Atom != "ok" {
+			f.fail("c13.repro", sx.Nat(k), rp.key, lastReproWhat)
 		}
-		f.fail("c13.repro", none, "updatebest-sethead-deadlock", what)
-	}
-	if bad, what := reproSubscribeSetHead(); bad {
-		f.fail("c13.repro", none, "subscribe-sethead-deadlock", what)
-	}
-	if bad, what := reproTimeoutRestarts(); bad {
-		f.fail("c13.repro", none, "wait-timeout-restarts", what)
-	}
-	if bad, what := reproEmptyPoolPanic(); bad {
-		f.fail("c13.repro", none, "wait-empty-pool-panic", what)
 	}
 }
